@@ -96,9 +96,19 @@ func report(sig string, o ls.Options, raw []byte, chunks []int, sleeps []int32, 
 }
 
 // play sends raw in chunks to both listeners and compares.
+// flip alternates which of the two listeners of a comparison also carries an
+// error handler (and gets its options in reverse order): neither may matter.
+var flip int
+
+func withHandler(o ls.Options, on bool) ls.Options {
+	o.Reversed = on
+	return o
+}
+
 func play(o ls.Options, raw []byte, chunks []int, sleeps []int32, space string) {
-	full := ls.NewLoop(ls.All(buf))
-	rest := ls.NewLoop(o)
+	flip++
+	full := ls.NewLoop(withHandler(ls.All(buf), flip%4 >= 2))
+	rest := ls.NewLoop(withHandler(o, flip%2 == 1))
 	ctx.Eval()
 	pos := 0
 	for ci, n := range chunks {
@@ -360,7 +370,8 @@ func chunkSpace(c0, c1 int) {
 	stream := make([]byte, 0, maxLen)
 	stream = append(stream, chunkClasses[c0], chunkClasses[c1])
 	one := func(raw []byte, chunks []int) {
-		full := ls.NewLoop(ls.All(buf))
+		flip++
+		full := ls.NewLoop(withHandler(ls.All(buf), flip%4 >= 2))
 		full.Drv.Sleep(3 * time.Millisecond)
 		pos := 0
 		for _, n := range chunks {
@@ -370,8 +381,8 @@ func chunkSpace(c0, c1 int) {
 			pos += n
 		}
 		ctx.Eval()
-		for _, o := range cs {
-			rest := ls.NewLoop(o)
+		for oi, o := range cs {
+			rest := ls.NewLoop(withHandler(o, (flip+oi)%2 == 1))
 			rest.Drv.Sleep(3 * time.Millisecond)
 			pos := 0
 			for _, n := range chunks {
@@ -439,12 +450,14 @@ var knownSysex = [][]byte{
 // driver does with the fractions, it does the same for every option set - the
 // remaining messages keep the time stamps the all-options listener sees.
 func subMillis() {
-	msgs := [][]byte{{0xF8}, {0x90, 0x3C, 0x40}, {0xF8}, {0xFE}, {0xF8}, {0xF0, 0x01, 0xF7}, {0xF8}, {0xFE}, {0x80, 0x3C, 0x00}, {0xF8}, {0xC0, 0x05}}
+	msgs := [][]byte{{0xF8}, {0x90, 0x3C, 0x40}, {0xF8}, {0xFE}, {0xF8}, {0xF0, 0x01, 0xF7}, {0xF8}, {0xFE}, {0x80, 0x3C, 0x00}, {0xF8}, {0xC0, 0x05},
+		{0xF0, 1, 2, 3, 4, 5, 6, 7, 8, 0xF7}, {0x91, 0x01, 0x02}, {0xF0, 1, 2}, {0xB0, 0x07, 0x08}, {0xFE}, {0xC1, 0x06}} // a sysex that overflows the buffer, one that is cut short
 	for _, gap := range []time.Duration{600 * time.Microsecond, 20833 * time.Microsecond, 1499 * time.Microsecond, 999 * time.Microsecond, 2 * time.Millisecond} {
 		for mask := 0; mask < 8; mask++ {
 			o := ls.Options{SysEx: mask&1 != 0, TimeCode: mask&2 != 0, ActiveSense: mask&4 != 0, BufSize: buf}
-			full := ls.NewLoop(ls.All(buf))
-			rest := ls.NewLoop(o)
+			flip++
+			full := ls.NewLoop(withHandler(ls.All(buf), flip%4 >= 2))
+			rest := ls.NewLoop(withHandler(o, flip%2 == 1))
 			ctx.Eval()
 			var raw []byte
 			var chunks []int
